@@ -553,7 +553,46 @@ def vc_glb(ctx):
                             if k == ('field', x[1], '0') and pc and pc[0] == 2:
                                 mins.append(t)
                                 return 'min'
+                if call_name(c.term) == 'retain' and ts[0] == 'phi' and len(ts[1]) == 2 and hand_min[0]:
+                    # the counter after a hand-written `if theirs < *count { *count = theirs }`: the stored one or other's, and
+                    # (checked below, per ordering) always the smaller of the two
+                    kinds_ = set(kind_of(a_, done=True) for a_ in ts[1])
+                    if kinds_ == {'own', 'their'}:
+                        mins.append(t)
+                        return 'min'
                 return None
+
+            def kind_of(x, done=False):
+                # (the closure's own parameters are substituted exactly once: the function's `other` is `param 2` too)
+                x = versionless(x) if done else versionless(subst(x, mapping))
+                cg_ = clock_get_of(x)
+                if cg_ is not None and param_path(cg_[0]) and param_path(cg_[0])[0] == 2 and versionless(cg_[1])[0] == 'field' \
+                        and versionless(cg_[1])[2] == '0' and versionless(cg_[1])[1][0] == 'item':
+                    return 'their'
+                if x[0] == 'field' and x[2] == '1' and x[1][0] == 'item':
+                    return 'own'
+                return None
+            hand_min = [False]
+            if call_name(c.term) == 'retain':
+                # in-place minimum written by hand: the only write to the counter stores other's counter, exactly when it is smaller
+                wr0 = [(k_[0], w) for k_, w in cit.writes.items() if w.loc[0] == ('P', 3) and not w.loc[1]]
+                if wr0 and all(kind_of(w.val) == 'their' for _, w in wr0):
+                    def cls_(a, b, t):
+                        ka, kb = kind_of(a), kind_of(b)
+                        if (ka, kb) == ('their', 'own'):
+                            return ('c', 'fwd')
+                        if (ka, kb) == ('own', 'their'):
+                            return ('c', 'rev')
+                        return None
+                    okh = True
+                    for o_ in TOTAL:
+                        rc_ = Reach(facts, cb, Evaluator(facts, classify=cls_, assumption={'c': o_}))
+                        sites_ = [b_ for b_, _ in wr0]
+                        if o_ == LT and not rc_.must_pass(sites_):
+                            okh = False
+                        if o_ == GT and any(b_ in rc_.reachable for b_ in sites_):
+                            okh = False
+                    hand_min[0] = okh
             res = {}
             if call_name(c.term) == 'retain':
                 # in-place form: the closure returns keep?, and overwrites the counter through its &mut parameter
@@ -579,7 +618,7 @@ def vc_glb(ctx):
             if call_name(c.term) == 'retain':
                 rc7 = Reach(facts, cb, Evaluator(facts, bool_atom=atom, assumption={'min': 7}))
                 good = [b_ for b_, w in wr if drop_lv(w.val) in [drop_lv(m) for m in mins]]
-                kept_ok = bool(good) and len(good) == len(wr) and rc7.must_pass(good)
+                kept_ok = (bool(good) and len(good) == len(wr) and rc7.must_pass(good)) or hand_min[0]
             else:
                 for b2, v in some_s:
                     tup = v[3][0][1]
@@ -1037,7 +1076,15 @@ def _nonzero_proof(facts, body, it, bb, v):
             lp = loop_of_block(it, bb)
             rem = [b2 for b2, c2 in it.calls.items() if lp is not None and b2 in lp.blocks and c2.cid.startswith('verif::collected')
                    and call_name(c2.term) == 'remove'] if lp is not None else []
-            if not rem or not rc.must_pass(rem, start=bb, stops=(lp.head,)):
+            # (on the paths that start at the store the element holds exactly the stored value: a later test of the element, whose
+            # term merges the stored value with the untouched one, is a test of the stored value there)
+            def atom_after(t):
+                tv = versionless(t)
+                if tv == vv or (tv[0] == 'phi' and vv in tv[1]):
+                    return 'v'
+                return None
+            rc_after = Reach(facts, body, Evaluator(facts, classify=classify, bool_atom=atom_after, assumption={'v': 0, 'z': z}))
+            if not rem or not rc_after.must_pass(rem, start=bb, stops=(lp.head,)):
                 return None
         else:
             dropped = False
